@@ -199,6 +199,8 @@ def rule_pair_domains(ctx):
 
 def run(ctx):
     rule_pair_domains(ctx)
+    from . import indexspace
+    indexspace.rule_index_spaces(ctx, 'R02.9')
     rule_dispatch(ctx)
     rule_components(ctx)
     loops = rule_pairs(ctx)
